@@ -945,7 +945,21 @@ class LinFn:
         return None
 
     def ub(self, L, S, depth=0, bottom_ok=False):
-        """Upper bound of L at S (INF if unknown). With bottom_ok, None means 'bottom' (only cyclic alternatives)."""
+        """Upper bound of L at S (INF if unknown). With bottom_ok, None means 'bottom' (only cyclic alternatives).
+        Besides the plain interval evaluation, L <= L + F for every dominating fact F >= 0, so the interval bound of
+        L + F is a bound of L as well (one fact at a time; e.g. `d - (p - t)` with the fact `p - t >= 0` is <= ub(d))."""
+        best = self._ub_interval(L, S, depth, bottom_ok)
+        if best is None or depth > 0 or self._ub_busy or len(L.c) < 2:
+            return best
+        for F in self.facts_at(S):
+            if not (set(F.c) & set(L.c)):
+                continue
+            u = self._ub_interval(L.add(F), S, depth + 1, False)
+            if u is not None and u < best:
+                best = u
+        return best
+
+    def _ub_interval(self, L, S, depth=0, bottom_ok=False):
         tot = L.k
         for a, c in L.c.items():
             if a in self._ub_busy:
@@ -970,6 +984,19 @@ class LinFn:
         return tot
 
     def lb(self, L, S, depth=0):
+        """Lower bound of L at S: interval evaluation of L, or of L - F for one dominating fact F >= 0."""
+        best = self._lb_interval(L, S, depth)
+        if depth > 0 or self._ub_busy or len(L.c) < 2:
+            return best
+        for F in self.facts_at(S):
+            if not (set(F.c) & set(L.c)):
+                continue
+            l = self._lb_interval(L.sub(F), S, depth + 1)
+            if l > best:
+                best = l
+        return best
+
+    def _lb_interval(self, L, S, depth=0):
         tot = L.k
         for a, c in L.c.items():
             lo, hi = self.atom_bounds(a, S, depth)
